@@ -112,6 +112,8 @@ type Cfg struct {
 	NoGateOnReads bool
 	// MergeBatches: the proxy re-batches aggregated watch events (a batch may absorb the batches that follow it)
 	MergeBatches bool
+	// ByIDMapped counts the mapped kinds of queue controllers that are declared by ID (a mapped and a destroy-ready sibling)
+	ByIDMapped int
 }
 
 // World is one runtime under observation.
